@@ -158,7 +158,15 @@ struct St {
     file_open: bool,
     reopened: bool,
 }
-struct M;
+/// `pre` is a history applied (unchecked) before exploration starts: a non-initial start state.
+struct M {
+    pre: Vec<Op>,
+}
+impl M {
+    fn plain() -> M {
+        M { pre: vec![] }
+    }
+}
 
 fn list_files(dir: &Path) -> Vec<(String, Vec<u8>)> {
     let mut v: Vec<(String, Vec<u8>)> = std::fs::read_dir(dir)
@@ -175,7 +183,11 @@ impl Model for M {
     fn init(&self) -> St {
         let dir = TmpDir::new();
         let wal = Wal::new(&dir.0).expect("Wal::new on a fresh directory");
-        St { dir, wal: Some(wal), recs: vec![], flushed: 0, file_open: false, reopened: false }
+        let mut st = St { dir, wal: Some(wal), recs: vec![], flushed: 0, file_open: false, reopened: false };
+        for op in &self.pre {
+            let _ = self.apply(&mut st, op, false);
+        }
+        st
     }
     fn ops(&self, _st: &St) -> Vec<Op> {
         vec![Op::Append(0), Op::Append(1), Op::Append(2), Op::Flush, Op::Reopen, Op::Checkpoint]
@@ -597,7 +609,7 @@ fn judge_flip(frames: &[Frame], base: &[Out], file: usize, byte: usize, newest: 
 
 fn collect_dirs(depth: usize) -> (Vec<DirSpec>, u64) {
     // every history of length <= depth on the real code; keep distinct on-disk results
-    let m = M;
+    let m = M::plain();
     let ops = vec![Op::Append(0), Op::Append(1), Op::Append(2), Op::Flush, Op::Reopen, Op::Checkpoint];
     let hists: Vec<Vec<usize>> = svmc::engine::odometer::sequences_upto(ops.len(), depth).collect();
     let n_hist = hists.len() as u64;
@@ -795,7 +807,7 @@ fn main() {
             svmc::Tier::Quick => (5, 2),
             svmc::Tier::Thorough => (7, 3),
         };
-        let m = M;
+        let m = M::plain();
         let t0 = std::time::Instant::now();
         let stats = hx::explore(&m, depth, 50_000_000, |v| {
             ctx.violation(&v.sig, v.msg, json!({"mode": "hx", "history": v.history.iter().map(|o| format!("{:?}", o)).collect::<Vec<_>>()}));
@@ -811,6 +823,36 @@ fn main() {
             }
             ctx.cov("determinism_rerun_identical", true);
         }
+        // late starts: the same exploration from histories that already hold many records, so that
+        // segment files named after sequence numbers of different magnitude (0xf -> 0x10, 0xff -> 0x100)
+        // coexist; the order in which replay visits the segments is then decided by those names
+        let late_depth = if ctx.tier == svmc::Tier::Thorough { 4 } else { 3 };
+        let mut late_states = 0u64;
+        let mut late_trans = 0u64;
+        let mut late_starts = vec![];
+        for total in [14usize, 254] {
+            let mut pre = vec![Op::Append(0), Op::Checkpoint];
+            for i in 0..total - 2 {
+                pre.push(Op::Append((i % 3) as u8));
+            }
+            let d = if total > 100 { late_depth - 1 } else { late_depth };
+            let ml = M { pre: pre.clone() };
+            let st = hx::explore(&ml, d, 50_000_000, |v| {
+                let mut h: Vec<String> = pre.iter().map(|o| format!("{:?}", o)).collect();
+                h.extend(v.history.iter().map(|o| format!("{:?}", o)));
+                ctx.violation(&format!("{}:late_start", v.sig), v.msg, json!({"mode": "hx", "history": h}));
+            });
+            if st.cap_hit {
+                ctx.machinery("late-start exploration hit its state cap");
+            }
+            late_states += st.states;
+            late_trans += st.transitions;
+            late_starts.push(json!({"records_before": total, "segments_before": 2, "depth": d, "states": st.states, "transitions": st.transitions}));
+        }
+        ctx.cov("late_start_explorations", json!(late_starts));
+        ctx.cov("late_start_states", late_states);
+        ctx.cov("late_start_transitions", late_trans);
+        println!("late starts: {} states, {} transitions", late_states, late_trans);
         let t1 = std::time::Instant::now();
         fault_part(ctx, fdepth);
         println!("fault part: {:.1}s", t1.elapsed().as_secs_f64());
@@ -829,7 +871,7 @@ fn replay(ctx: &Ctx, p: &Path) {
     let doc: Value = serde_json::from_str(&std::fs::read_to_string(p).expect("read replay")).expect("json");
     let w = &doc["witness"];
     if w["mode"] == "hx" {
-        let m = M;
+        let m = M::plain();
         let hist: Vec<String> = w["history"].as_array().unwrap().iter().map(|s| s.as_str().unwrap().to_string()).collect();
         let mut st = m.init();
         for (i, want) in hist.iter().enumerate() {
